@@ -87,8 +87,15 @@ func InstantNow() *dtpb.Instant {
 //
 // See: http://hl7.org/fhir/R4/datatypes.html#time
 func Time(t time.Time) *dtpb.Time {
+	day := (time.Hour * 24).Microseconds()
+	valueUs := t.UnixMicro() % day
+	if valueUs < 0 {
+		// before the epoch (e.g. a time of day parsed without a date: year 0)
+		// the remainder is negative
+		valueUs += day
+	}
 	return &dtpb.Time{
-		ValueUs:   t.UnixMicro() % (time.Hour * 24).Microseconds(),
+		ValueUs:   valueUs,
 		Precision: dtpb.Time_MICROSECOND,
 	}
 }
